@@ -4,3 +4,4 @@ import CbOblig.C20
 import CbOblig.C13
 import CbOblig.C11
 import CbOblig.C15
+import CbOblig.C15Run
